@@ -70,3 +70,47 @@ Proof.
   intros Hv Hc Hw Hm Hs Hn He. apply (count_is_eof db v A f rt s n e); auto.
   unfold covered. apply uncovered_repaired; auto.
 Qed.
+
+(* ---- the frozen tree (vc): what is still false, what holds ------------------------- *)
+(* r1 at 2 samples/frame, f3 = PHASE r2 -1 at 7, frame offset 2: gd_bof(m) = 4, yet
+   sample 4 of m uses f3[14], which is padding; the first all-real sample is 5 *)
+Lemma witness_bof_floor :
+  impl_bof db_bof vc m_bof = 4 /\ is_real db_bof m_bof 4 = false /\ is_real db_bof m_bof 5 = true.
+Proof. vm_compute. auto. Qed.
+
+Lemma bof_statement_refuted_current : ~ bof_is_first_real_statement vc.
+Proof.
+  intro H. destruct witness_bof_floor as (Hb & Hr & _).
+  assert (Hw : wf db_bof m_bof) by (vm_compute; intuition discriminate).
+  pose proof (proj2 (H db_bof m_bof 4 Hw ltac:(lia))) as H0. rewrite Hb in H0.
+  rewrite H0 in Hr by lia. discriminate.
+Qed.
+
+(* MPLEX over a forward-shifted PHASE: the re-seek after the look-back fails *)
+Lemma witness_mplex_reseek :
+  impl_eof db_mx vc x_mx = Some 14 /\ read_count XAlg db_mx vc F64 x_mx 0 1 = None /\
+  uncovered XAlg db_mx vc F64 x_mx 0 1 = [TMplexSeek].
+Proof. vm_compute. auto. Qed.
+
+Lemma count_statement_refuted_current : ~ count_is_eof_statement vc.
+Proof.
+  intro H. destruct witness_mplex_reseek as (He & Hc & _).
+  assert (Hw : wf db_mx x_mx) by (vm_compute; intuition discriminate).
+  pose proof (H XAlg db_mx x_mx F64 0 1 14 Hw ltac:(lia) ltac:(lia) He) as H0.
+  rewrite Hc in H0. discriminate.
+Qed.
+
+(* the count statement on the frozen tree: every MPLEX-free field and window, the
+   only proviso being the padding clause of C01 (which concerns values, not counts) *)
+Lemma count_is_eof_current (A : Alg) db v f rt s n e :
+  v_align v = true -> v_alloc0 v = true -> v_clamp v = true ->
+  wf db f -> mplex_free f -> 0 <= s -> 0 <= n ->
+  ~ In TRawPad (uncovered A db v rt f s n) ->
+  impl_eof db v f = Some e ->
+  read_count A db v rt f s n = Some (Z.min n (Z.max 0 (e - s))).
+Proof.
+  intros Ha Hz Hc Hw Hm Hs Hn Hp He. apply (count_is_eof db v A f rt s n e); auto.
+  unfold covered. pose proof (uncovered_current A db v f Ha Hz Hm rt s n) as H.
+  destruct (uncovered A db v rt f s n) as [|t l]; [reflexivity|].
+  exfalso. apply Hp. rewrite (H t (or_introl eq_refl)). left. reflexivity.
+Qed.
